@@ -12,14 +12,16 @@ observed.  This module adds
   * a delegating wrapper of the store's connection (`FaultyConnection`, cursors included) whose
     commit() / write execute() / executemany() raises ONCE at a chosen call index; a step
 
-        (dt_us, tick_us, ("fault", kind, nth, (call, args...)))
+        (dt_us, tick_us, ("fault", kind, nth, (call, args...)[, times]))
 
     runs `call` with the fault armed: kind "commit" - the nth conn.commit() the call makes
     raises (nothing is flushed, the transaction stays open); "execute" - its nth write statement
     raises before it reaches the engine (nothing is written); "executemany" - the bulk statement
     raises after nth rows (they stay in the open transaction).  The caller (the harness) catches
-    the exception and goes on.  Storage layer and Datastore / Bucket layer, fake clock, re-opening
-    and the second store as in c18_lib.
+    the exception and goes on; with `times` > 1 the engine goes on raising for that many consecutive
+    calls of the kind (a lock held for the whole call: a call that tries again meets it again).
+    Storage layer and Datastore / Bucket layer, fake clock, re-opening and the second store as in
+    c18_lib.
   * a recorder that keeps a commit step that RAISED (with the engine's answer per attempt) and
     the position of a statement that raised, so that the run can be compared with the extracted
     model of Model/CommitFault.v (driver cases 6 / 7): counter, last_commit, committed prefix after
@@ -81,9 +83,9 @@ class Control:
         self.n = {"commit": 0, "execute": 0, "executemany": 0}
         self.fired = None
 
-    def arm(self, kind, nth):
+    def arm(self, kind, nth, times=1):
         self.reset()
-        self.armed = (kind, nth)
+        self.armed = (kind, nth, times)
 
     def disarm(self):
         self.armed = None
@@ -93,9 +95,14 @@ class Control:
         """-> the armed fault strikes at this engine call"""
         i = self.n[kind]
         self.n[kind] += 1
-        if self.armed and self.fired is None and self.armed[0] == kind and (kind == "executemany" or self.armed[1] == i):
-            self.fired = {"kind": kind, "index": i}
-            return True
+        if self.armed and self.armed[0] == kind:
+            if self.fired is None and (kind == "executemany" or self.armed[1] == i):
+                self.fired = {"kind": kind, "index": i, "times": 1}
+                return True
+            # a lock that is still held: the engine goes on raising for `times` consecutive calls of the kind
+            if self.fired is not None and kind != "executemany" and i < self.armed[1] + self.armed[2]:
+                self.fired["times"] += 1
+                return True
         return False
 
 
@@ -176,14 +183,14 @@ class RecorderF(lib18.Recorder18):
     def __init__(self, storage, path, clock):
         super().__init__(storage, path, clock)
         self.finfo = {}          # micro index -> {"raised": bool, "eng": [ok1, ok2, ok3]}
-        self.markers = []        # (micro index the statement would have had, kind, t)
+        self.markers = []        # (micro index the statement would have had, kind, t, index of the call)
         self.eng = [True, True, True]
 
     def on_commit_fault(self):
         self.eng[2 if (self.in_cc and self.test_done) else 0] = False
 
     def on_statement_fault(self, kind):
-        self.markers.append((len(self.micro), kind, self.clock.now))
+        self.markers.append((len(self.micro), kind, self.clock.now, len(self.calls)))
 
     def on_commit(self, thunk):
         if self.in_cc or self.in_commit:
@@ -252,21 +259,23 @@ class FaultSession(lib18.Session):
         if spec[0] != FAULT:
             return super().step(dt, tick, spec)
         kind, nth, inner = spec[1], spec[2], tuple(tuple(x) if isinstance(x, list) else x for x in spec[3])
+        times = spec[4] if len(spec) > 4 else 1
+        rec_spec = [FAULT, kind, nth, list(inner)] + ([times] if times != 1 else [])
         if kind not in KINDS or inner[0] in (lib18.REOPEN, lib18.COMPANION, FAULT):
             raise ValueError("fault step " + repr(spec))
         r = self.cur
         n_calls = len(r.rec.calls)
         was_cached = inner[1] in r.cached if len(inner) > 1 else False
-        r.ctl.arm(kind, nth)
+        r.ctl.arm(kind, nth, times)
         try:
             super().step(dt, tick, inner)
         finally:
             fired = r.ctl.disarm()
-        self.steps[-1] = [dt, tick, [FAULT, kind, nth, list(inner)]]
-        r.steps[-1] = [dt, tick, [FAULT, kind, nth, list(inner)]]
+        self.steps[-1] = [dt, tick, rec_spec]
+        r.steps[-1] = [dt, tick, rec_spec]
         if len(r.rec.calls) > n_calls:
             c = r.rec.calls[-1]
-            c["fault"] = {"kind": kind, "nth": nth, "fired": fired}
+            c["fault"] = {"kind": kind, "nth": nth, "times": times, "fired": fired}
             if fired and inner[0] == "create_bucket" and not was_cached:
                 r.cached.discard(inner[1])      # Datastore.create_bucket raised before self[bucket_id]
 
@@ -375,7 +384,7 @@ def wire_fault_trace(lazy, t0, rec):
     """-> (case text, after): after[i] = number of model steps that precede the state reached
     when i micro-steps were recorded"""
     by_pos = {}
-    for pos, kind, t in rec.markers:
+    for pos, kind, t, _ in rec.markers:
         by_pos.setdefault(pos, []).append((kind, t))
     tr, after = [], [0]
     for i, (k, a, c) in enumerate(rec.micro):
@@ -390,12 +399,12 @@ def wire_fault_trace(lazy, t0, rec):
     return common.sx([6, lazy, t0, tr]), after
 
 
-def fault_position(rec, c):
+def fault_position(rec, ci, c):
     """-> (kind 0 = commit | 1 = statement, number of flattened micro-steps of the call completed
     before the fault) or None when no engine call of the call raised"""
     a, b = c["first_micro"], c["end_micro"]
-    for pos, kind, t in rec.markers:
-        if a <= pos <= b and c["t_start"] <= t <= c["t_end"]:
+    for pos, kind, t, call in rec.markers:
+        if call == ci:
             return 1, pos - a
     for i in range(a, b):
         fi = rec.finfo.get(i)
@@ -423,7 +432,7 @@ def compare_fault_model(r, model_out, after, script_outs):
         bad.append("recorder anomalies: " + "; ".join(rec.anomalies[:3]))
     if not r.own_ok:
         bad.append("the store's own connection does not see the effect of all issued writes (shadow replay differs)")
-    for c, (kind, so) in zip(rec.calls, script_outs):
+    for ci, (c, (kind, so)) in enumerate(zip(rec.calls, script_outs)):
         got = lib.shape_of_observed(rec.micro[c["first_micro"]:c["end_micro"]])
         pre = []
         api = c.get("api")
@@ -431,12 +440,12 @@ def compare_fault_model(r, model_out, after, script_outs):
             if api is not None and api[0] == "bucket" and not api[1]:
                 pre = ["R"]
             if so == [-1]:
-                bad.append(f"{c['spec']}: the engine raised after {fault_position(rec, c)[1]} steps of the call, where the "
+                bad.append(f"{c['spec']}: the engine raised after {fault_position(rec, ci, c)[1]} steps of the call, where the "
                            f"model's script has no such operation (implementation ran {got})")
                 continue
             want = pre + shape_of_fault_script(so)
             if not c["outcome"]:
-                bad.append(f"{c['spec']}: an engine operation raised ({c['fault']}) and the call returned normally")
+                bad.append(f"{c['spec']}: an engine operation raised ({c.get('fault')}) and the call returned normally")
         else:
             want = lib.shape_of_model_script(so)
             if bool(c["outcome"]) != bool(c.get("raises")):
@@ -469,9 +478,9 @@ def compare_fault_model(r, model_out, after, script_outs):
     return bad
 
 
-def model_case_f(rec, c):
+def model_case_f(rec, ci, c):
     """-> (kind, wire case) for one recorded call"""
-    pos = fault_position(rec, c)
+    pos = fault_position(rec, ci, c)
     if pos is None or (pos[0] == 1 and c.get("expect") == "rejected"):
         # no engine call raised / the statement the engine would have rejected anyway was the one that raised
         return "plain", lib18.model_case(c)
@@ -486,8 +495,8 @@ def model_case_f(rec, c):
 # histories
 
 
-def _fault(dt, kind, nth, call, tick=0):
-    return (dt, tick, (FAULT, kind, nth, tuple(call)))
+def _fault(dt, kind, nth, call, tick=0, times=1):
+    return (dt, tick, (FAULT, kind, nth, tuple(call)) + ((times,) if times != 1 else ()))
 
 
 def scout(sq, Event, lazy, history):
@@ -586,6 +595,10 @@ def corpus(sq, Event, quick):
                 yield _fault(7 * S, "commit", 0, ("replace_last", "b"))
                 yield _fault(MS, "commit", 0, ("insert_one", "b"))      # twice in a row
                 yield (d, 0, spec if kind != "delete" else ("delete", "b", ids[1]))
+                yield (1 * S, 0, ("insert_one", "b"))
+                # the lock is held for the whole call: every COMMIT the call attempts raises
+                yield _fault(11 * S, "commit", 0, ("insert_one", "b"), times=(3, 1000)[OFFSETS.index(d) % 2])
+                yield (d, 0, ("replace_last", "b"))
             add(f"fault-then-{kind}-{d}", True, h)
 
     # the count branch: the 51st statement's COMMIT raises (young), later the age COMMIT too
@@ -701,13 +714,15 @@ def random_faults(rng, base):
                 yield (dt, tick, spec)
                 continue
             x = rng.random()
+            times = 1
             if x < 0.7:
                 kind, nth = "commit", rng.choice([0, 0, 0, 0, 1])
+                times = rng.choice([1, 1, 1, 2, 3, 1000])
             elif x < 0.85:
                 kind, nth = "execute", rng.choice([0, 1, 1, 2])
             else:
                 kind, nth = "executemany", rng.choice([0, 1, 3])
-            yield _fault(dt, kind, nth, spec, tick)
+            yield _fault(dt, kind, nth, spec, tick, times)
             have = r.bucket_ids()
             if have and rng.random() < 0.75:
                 b = spec[1] if len(spec) > 1 and spec[1] in have else rng.choice(have)
@@ -774,8 +789,8 @@ def run_faults(ck, sq, Event, have_driver):
             i_trace = len(wire)
             wire.append(case)
             i_scripts = []
-            for c in r.rec.calls:
-                kind, w = model_case_f(r.rec, c)
+            for ci, c in enumerate(r.rec.calls):
+                kind, w = model_case_f(r.rec, ci, c)
                 i_scripts.append((kind, len(wire)))
                 wire.append(w)
                 fl = c.get("fault")
